@@ -660,9 +660,13 @@ def rename_symbols(model: Model, new_names: Mapping[TSymbol, TSymbol]) -> Model:
         parameters=Parameters.create(new),
         statements=model.statements.subs(d),
         random_variables=model.random_variables.subs(d),
+        dependent_variables={d.get(dv, dv): n for dv, n in model.dependent_variables.items()},
+        observation_transformation={
+            d.get(dv, dv): expr.subs(d) for dv, expr in model.observation_transformation.items()
+        },
     )
     return model.update_source()
-    # FIXME: Only handles parameters, statements and random_variables and no clashes and circular renaming
+    # FIXME: No handling of clashes and circular renaming
 
 
 def filter_dataset(model: Model, expr: str) -> Model:
